@@ -91,6 +91,46 @@ func genCurves(r *kit.Rng) []uint16 {
 	for _, i := range p[:n] {
 		o = append(o, allCurves[i])
 	}
+	if r.Chance(1, 4) {
+		// hybrid ML-KEM groups (TLS 1.3 key_share only); mostly in front, where they matter
+		hp := r.Perm(3)
+		for _, i := range hp[:r.Range(1, 2)] {
+			at := 0
+			if r.Chance(1, 3) {
+				at = r.Intn(len(o) + 1)
+			}
+			o = append(o[:at], append([]uint16{hybridCurves[i]}, o[at:]...)...)
+		}
+	}
+	return o
+}
+
+var hybridCurves = []uint16{4588, 4587, 4589}
+
+func isHybrid(c uint16) bool { return u16in(c, hybridCurves) }
+
+// usesSystemEntropy reports whether a run can reach crypto/mlkem key generation, which reads the system DRBG
+// and not Config.Rand: such runs replay logically but not byte for byte, so their determinism fingerprint is
+// the scenario, not the event log.
+func usesSystemEntropy(a, b []uint16) bool {
+	for _, c := range append(append([]uint16(nil), a...), b...) {
+		if isHybrid(c) {
+			return true
+		}
+	}
+	return false
+}
+
+func stripHybrid(c []uint16) []uint16 {
+	var o []uint16
+	for _, x := range c {
+		if !isHybrid(x) {
+			o = append(o, x)
+		}
+	}
+	if len(c) > 0 && len(o) == 0 {
+		o = []uint16{29}
+	}
 	return o
 }
 
@@ -460,6 +500,9 @@ func c24Model(sc *c24Scenario, offered []uint16, clientVersions []uint16, client
 	}
 	curveOK := false
 	for _, c := range clientCurves {
+		if isHybrid(c) && e.Version != vTLS13 {
+			continue // the hybrid groups exist for the TLS 1.3 key_share only
+		}
 		if u16in(c, effCurves(sc.Server.Curves)) {
 			curveOK = true
 		}
@@ -620,6 +663,12 @@ func execC24(t *testing.T, scAny any, keepLog bool) *Outcome {
 		h.WriteU64(s.TapeHash())
 		h.WriteString(fmt.Sprintf("%+v|%+v|%v|%v", sc.Client, sc.Server, sc.Resume, sc.Downgrade))
 		o.Distinct = h.Sum()
+		if usesSystemEntropy(sc.Client.Curves, sc.Server.Curves) {
+			o.count("probe.runs_reaching_system_entropy_mlkem", 1)
+			hh := kit.NewHash64()
+			hh.WriteString(fmt.Sprintf("%+v|%+v|%v|%v|%v", sc.Client, sc.Server, sc.Resume, sc.Downgrade, o.Fail == nil))
+			o.LogHash = hh.Sum()
+		}
 	})
 	return o
 }
